@@ -150,7 +150,13 @@ func mathLog10(L *LState) int {
 		L.Push(LNumber(math.Log10(x*0x1p54) - 54*(math.Ln2/math.Ln10)))
 		return 1
 	}
-	L.Push(LNumber(math.Log10(x)))
+	r := math.Log10(x)
+	// math.Log10 is log2(x)*(Ln2/Ln10), which misses the integer for some powers of ten
+	// (log10(1e15) = 14.999999999999998); C's log10 is exact there
+	if n := math.Round(r); math.Abs(r-n) < 1e-9 && n >= -307 && n <= 308 && math.Pow10(int(n)) == x {
+		r = n
+	}
+	L.Push(LNumber(r))
 	return 1
 }
 
